@@ -55,24 +55,27 @@ CLAIMS = {
          'the suit led), opening_lead_and_dummy, turn_passes_clockwise, winner_leads_next, one_trick_credited_to_winners_side, '
          'incomplete_trick_step, history_is_tricksOf (history = the played cards cut in fours with their actual leaders; counts = tricks won), '
          'after_52_cards, has_done_iff_52, passed_out_not_playable — for every contract with a declarer and every list of cards played, '
-         'by induction over the play list. Correspondence: every public field after every card on random boards.',
+         'by induction over the play list. Correspondence: every public field after every card on random boards. ALSO by translation: playing_phase.py is re-written on every run into a MiniPy program (Generated/PyCorePlay.lean) and Translated/Play.lean proves by symbolic execution that the translated __init__ / play_card (incl. the completed trick) / calc_highest / has_done ARE the model on every well-formed state (WF shown sharp), and that construction followed by any list of cards is the encoding of the model run.',
          'Trusted: Lean kernel (propext, Classical.choice, Quot.sound); the Law as stated in Spec/Play.lean (WinsTrick); model faithfulness '
          'outside the sampled boards; the cards of the incomplete trick are private in the implementation and are reconstructed by the harness.',
          'Lean 4 proof (invariants by induction over the play list) + differential correspondence'),
  'C05': ('Lean 4 theorems about the models of PlayingPhaseWithHands and ObservedPlayingPhase: refused_out_of_turn, refused_not_held, accepted_iff, '
          'accepted_effect, refusal_changes_nothing, conservation (for every deal and every offered sequence, legal or not, remaining hands ++ played '
-         'cards is a permutation of the deal), no_card_twice, after_52_all_empty, observed_* variants. Unbounded sequences, induction.',
+         'cards is a permutation of the deal), no_card_twice, after_52_all_empty, observed_* variants. Unbounded sequences, induction. ALSO Translated/Play.lean: the translated play_card_by_player of PlayingPhase / PlayingPhaseWithHands / ObservedPlayingPhase and set_dummy_hand ARE the models (refusals raise ValueError / Exception exactly where the model refuses).',
          'Trusted: as C04; hands are modelled as duplicate-free lists compared as sets.',
          'Lean 4 proof (conservation invariant via List.Perm) + fault-injecting differential correspondence'),
  'C06': ('Lean 4 theorems: available_spec (available_cards = follow-suit rule), available_subset, available_nonempty, available_follows, '
          'current_available_uses_first_card, random_play_in_available (for every choice function returning an element of its argument). '
-         'Correspondence on hands of every size x every led card and at every state of play-throughs; RandomPlay with random.choice recorded.',
+         'Correspondence on hands of every size x every led card and at every state of play-throughs; RandomPlay with random.choice recorded. ALSO Translated/Play.lean: the translated available_cards / current_available_cards(_in_hand/_in_dummy_hand) ARE the model functions on every hand and state.',
          'Trusted: as C04; random.choice returns an element of its argument.',
          'Lean 4 proof + differential correspondence'),
  'C14': ('Lean 4 theorems for every (partial) deal: pbn_round_trip (to_pbn from any first seat, then the regex scanner of convert_pbn, gives back the '
          'same hands), pbn_canonical (S.H.D.C order, ranks high to low, void = empty field, unknown hand = "-", 16 characters), binary_round_trip, '
          'np_binary_round_trip, json_round_trip, json_cards_ascending, random_deal_is_partition (for EVERY permutation produced by shuffle), '
-         'fresh_pack_is_the_deck. Correspondence incl. malformed and backtracking-inducing PBN strings.',
+         'fresh_pack_is_the_deck. Correspondence incl. malformed and backtracking-inducing PBN strings. ALSO by translation: hands.py is re-written on '
+         'every run into a MiniPy program (Generated/PyCoreHands.lean) and Translated/Hands.lean proves that the translated to_binary, convert_binary '
+         '(with the binary round trip through the translated code), _convert_hand_to_pbn and to_pbn ARE the model functions, under sharp hypotheses; '
+         'the regular-expression, numpy and random methods are outside the translated subset and stay tied by correspondence only.',
          'Trusted: Lean kernel (3 standard axioms); the hand-written backtracking scanner standing for re.match on DEAL_PATTERN/HAND_PATTERN '
          '(differential-tested); numpy vector semantics; random.shuffle returns a permutation.',
          'Lean 4 proof (string-level round trip through the scanner model) + differential correspondence'),
